@@ -29,7 +29,7 @@ THEOREMS = ['C02_balanced', 'C02_exit_only_active', 'C02_enter_only_inactive', '
 
 
 def gen(rng, i, tier):
-    c = hsm.gen_case(rng, max_depth=(4 if tier == 'thorough' and i % 3 == 0 else 3), p_parallel=(0.8 if i % 5 == 2 else 0.35), p_enum=0.2,
+    c = hsm.gen_case(rng, max_depth=(4 if tier == 'thorough' and i % 3 == 0 else 3), p_parallel=(0.8 if i % 5 == 2 else 0.35), p_enum=0.2, p_sep=0.15, p_queued=0.15,
                      p_subset=(0.7 if i % 10 == 7 else 0.0))
     if i % 5 == 2:
         # two regions of an active parallel state declare the event, the first one's transition moves the other region
@@ -44,6 +44,10 @@ def gen(rng, i, tier):
     c['history'] = [(0, e, a) for (k, e, a) in c['history']]
     c['cls'] = CLASSES[i % len(CLASSES)]
     return c
+
+
+def canon(case, obs):
+    return hsm.canon_queued(case, obs)
 
 
 def enc(case):
@@ -127,6 +131,10 @@ def nontrivial(case, obs):
 def stats(case, obs, dist):
     if case.get('enum'):
         dist['cases_with_enum_named_states'] = dist.get('cases_with_enum_named_states', 0) + 1
+    if case.get('sep'):
+        dist['cases_with_custom_separator'] = dist.get('cases_with_custom_separator', 0) + 1
+    if case.get('queued'):
+        dist['cases_on_queued_machines'] = dist.get('cases_on_queued_machines', 0) + 1
     if not isinstance(obs, list) or obs[0] != 1:
         return
     for items, res, cfg in obs[2]:
